@@ -16,7 +16,7 @@ use refmodel::state::*;
 use refmodel::x509::*;
 use std::sync::{Arc, Mutex};
 
-pub const N_OPS: usize = 12;
+pub const N_OPS: usize = 14;
 
 pub fn op_name(i: usize) -> &'static str {
     [
@@ -32,6 +32,8 @@ pub fn op_name(i: usize) -> &'static str {
         "parse CSR",
         "issue from parsed CSR under A",
         "self-sign with duplicate EKUs",
+        "CSR with the larger RSA key (3072 bits)",
+        "leaf for the larger RSA key under A",
     ][i]
 }
 
@@ -40,6 +42,8 @@ pub struct World {
     pub key_a: KeyPair,
     pub key_b: KeyPair,
     pub leaf_key: KeyPair,
+    /// a second, larger RSA key (whatever a signature of one size leaves behind must not show in one of another size)
+    pub big_key: KeyPair,
     pub ca_a: Certificate,
     pub ca_b: Certificate,
     pub csr_der: Vec<u8>,
@@ -92,10 +96,12 @@ pub fn world(zoo: &[ZooKey]) -> World {
     let key_a = rc_load(a, Alg::Ed25519).unwrap();
     let key_b = rc_load(b, Alg::Ed25519).unwrap();
     let leaf_key = rc_load(l, Alg::RsaSha256).unwrap();
+    let big = zoo.iter().find(|z| z.kind == KeyKind::Rsa3072 && z.format == KeyFormat::Pkcs8).unwrap();
+    let big_key = rc_load(big, Alg::RsaSha256).unwrap();
     let ca_a = to_params(&st_a(KeyIdSpec::Sha256)).unwrap().self_signed(&key_a).unwrap();
     let ca_b = to_params(&st_b()).unwrap().self_signed(&key_b).unwrap();
     let csr_der = to_params(&st_csr()).unwrap().serialize_request(&leaf_key).unwrap().der().to_vec();
-    World { key_a, key_b, leaf_key, ca_a, ca_b, csr_der }
+    World { key_a, key_b, leaf_key, big_key, ca_a, ca_b, csr_der }
 }
 
 /// Execute operation `i`; returns the complete output bytes (all signatures here are deterministic:
@@ -128,6 +134,8 @@ pub fn exec(w: &World, i: usize) -> Result<Vec<u8>, String> {
                 p.params.use_authority_key_identifier_extension = true;
                 p.signed_by(&w.ca_a, &w.key_a).map_err(e)?.der().to_vec()
             }
+            12 => to_params(&st_csr())?.serialize_request(&w.big_key).map_err(e)?.der().to_vec(),
+            13 => to_params(&st_leaf())?.signed_by(&w.big_key, &w.ca_a, &w.key_a).map_err(e)?.der().to_vec(),
             _ => {
                 let mut st = st_a(KeyIdSpec::Sha256);
                 st.ekus = vec![EkuSpec::ServerAuth, EkuSpec::ClientAuth, EkuSpec::CodeSigning, EkuSpec::ServerAuth, EkuSpec::OcspSigning, EkuSpec::ClientAuth];
